@@ -13,6 +13,9 @@
 #ifndef NMIN
 #define NMIN 0
 #endif
+#ifndef IP6_MAXG
+#define IP6_MAXG 8      /* groups before / after the zipper: 0..IP6_MAXG in total */
+#endif
 #ifndef GENK
 #define GENK 1
 #endif
@@ -30,7 +33,7 @@ int main(void){
   /* shape-bounded IPv6 literal "//[" ... "]": group layout, zipper position, optional IPv4 tail are skeleton choices (valid AND
      invalid layouts); plain groups are one symbolic letter a..f; one "wide" group has 1..5 symbolic decimal (IP6_WIDE_HEX: hex, both cases) digits; one IPv4 octet
      has 1..4 symbolic digits.  Reaches the quad / zipper / octet counters that raw N-character exploration cannot. */
-  { CH tmp[80]; long k = 0; int before = uk_choice(9, "groupsBefore"), zip = uk_choice(2, "zipper"), after = zip ? uk_choice(9 - before, "groupsAfter") : 0;
+  { CH tmp[80]; long k = 0; int before = uk_choice(IP6_MAXG + 1, "groupsBefore"), zip = uk_choice(2, "zipper"), after = zip ? uk_choice(IP6_MAXG + 1 - before, "groupsAfter") : 0;
     int v4 = uk_choice(2, "ipv4tail"), ng = before + after, g, wide = -1, wlen = 1, oct = -1, olen = 1, noct = 4;
     tmp[k++] = '/'; tmp[k++] = '/'; tmp[k++] = '[';
     if (!v4 && ng > 0){ wide = uk_choice(ng, "wideGroup"); wlen = 1 + uk_choice(5, "wideLen"); }
@@ -42,13 +45,13 @@ int main(void){
 #ifdef IP6_WIDE_HEX
         if (g == wide) uk_assume((CHV(c) >= '0' && CHV(c) <= '9') || (CHV(c) >= 'a' && CHV(c) <= 'f') || (CHV(c) >= 'A' && CHV(c) <= 'F')); else
 #endif
-        if (g == wide) uk_assume(CHV(c) >= '0' && CHV(c) <= '9'); else uk_assume(CHV(c) >= 'a' && CHV(c) <= 'f');   /* plain groups: one lowercase hex letter */ tmp[k++] = c; }
+        uk_assume(CHV(c) >= 'a' && CHV(c) <= 'f');   /* groups: lowercase hex letters (the wide group too unless IP6_WIDE_HEX) */ tmp[k++] = c; }
     }
     if (zip && before == ng){ tmp[k++] = ':'; tmp[k++] = ':'; }
     if (v4){
       if (ng > 0 && !(zip && before == ng)) tmp[k++] = ':';
       for (g = 0; g < noct; g++){ int len = (g == oct) ? olen : 1, d; if (g > 0) tmp[k++] = '.';
-        for (d = 0; d < len; d++){ CH c; SYM_TEXT(&c, 1, "d"); uk_assume(CHV(c) >= '0' && CHV(c) <= '9'); tmp[k++] = c; } }
+        for (d = 0; d < len; d++){ CH c; SYM_TEXT(&c, 1, "d"); if (g == oct) uk_assume(CHV(c) >= '0' && CHV(c) <= '9'); else uk_assume(CHV(c) >= '3' && CHV(c) <= '9'); tmp[k++] = c; } }   /* the other octets: one digit 3..9 */
     }
     tmp[k++] = ']';
     n = k; buf = uk_buf((size_t)n * sizeof(CH), "text"); for (i = 0; i < n; i++) buf[i] = tmp[i];
